@@ -128,6 +128,7 @@ const (
 	bpConst
 	bpBool
 	bpPred
+	bpTblPtr
 )
 
 type bpVal struct {
@@ -136,6 +137,7 @@ type bpVal struct {
 	n   int64
 	b   bool
 	set bset
+	g   *ssa.Global // bpTblPtr: the constant table pointed to
 }
 
 type bytePath struct {
@@ -225,10 +227,25 @@ func (p *bytePath) val(env map[ssa.Value]bpVal, v ssa.Value) bpVal {
 			}
 		}
 	}
+	// the address of a constant table, as such or as chosen by a helper from a flag
+	if g, ok := v.(*ssa.Global); ok {
+		if _, isT := p.tables[g]; isT {
+			return bpVal{k: bpTblPtr, g: g}
+		}
+	}
+	if call, ok := v.(*ssa.Call); ok {
+		if g := p.tableChosenBy(env, call); g != nil {
+			return bpVal{k: bpTblPtr, g: g}
+		}
+	}
 	// element load table[b] through IndexAddr on the global array
 	if ld, ok := v.(*ssa.UnOp); ok && ld.Op == token.MUL {
 		if ia, ok := ld.X.(*ssa.IndexAddr); ok {
-			if g, ok := ia.X.(*ssa.Global); ok {
+			var g *ssa.Global
+			if xv := p.val(env, ia.X); xv.k == bpTblPtr {
+				g = xv.g
+			}
+			if g != nil {
 				if t, ok := p.tables[g]; ok {
 					iv := p.val(env, ia.Index)
 					if iv.k == bpByte {
@@ -249,6 +266,52 @@ func (p *bytePath) val(env map[ssa.Value]bpVal, v ssa.Value) bpVal {
 		}
 	}
 	return bpVal{k: bpUnknown}
+}
+
+// tableChosenBy: call is a call of a repository function every return of which hands out the
+// address of a constant table, the choice depending only on boolean parameters whose arguments
+// have a known value here: the table returned.
+func (p *bytePath) tableChosenBy(env map[ssa.Value]bpVal, call *ssa.Call) *ssa.Global {
+	f := call.Call.StaticCallee()
+	if f == nil || len(f.Blocks) == 0 || !p.b.inRepo(f) {
+		return nil
+	}
+	var chosen *ssa.Global
+	n := 0
+	for _, r := range liveReturns(f) {
+		if len(r.Results) != 1 {
+			return nil
+		}
+		g, ok := r.Results[0].(*ssa.Global)
+		if !ok {
+			return nil
+		}
+		if _, isT := p.tables[g]; !isT {
+			return nil
+		}
+		feasible := true
+		for _, fact := range dominatingFacts(r.Block()) {
+			prm, ok := fact.V.(*ssa.Parameter)
+			if !ok {
+				return nil // the choice depends on something else than a flag
+			}
+			av := p.val(env, call.Call.Args[paramIdx(prm)])
+			if av.k != bpBool {
+				return nil
+			}
+			if av.b != fact.True {
+				feasible = false
+			}
+		}
+		if feasible {
+			chosen = g
+			n++
+		}
+	}
+	if n != 1 {
+		return nil
+	}
+	return chosen
 }
 
 func (p *bytePath) run(bb *ssa.BasicBlock, pred *ssa.BasicBlock, cset bset, env map[ssa.Value]bpVal, depth int) {
